@@ -204,3 +204,55 @@ Example C02_select_of_rank_nonvacuous :
   Select32R64 c02_ex [0; 32] [0; 33; 33; 34; 35] 34 = Some (192, 256) /\
   spec_SelectFrom c02_ex 192 = (192, 256).
 Proof. vm_compute. intuition congruence. Qed.
+
+(** * widened: select against NextOne (C13's model, Model/BitmapNext.v) *)
+From Low Require Import Model.BitmapNext Proofs.SelectNext.
+
+(** NextOne over the whole rest of the bitmap = select of the rank there (or -1 when the rank
+    is already the total number of 1-bits) *)
+Theorem C02_NextOne_is_select_of_rank : forall ws p, words_ok ws -> 0 <= p < 64 * zlen ws ->
+  NextOne ws p (64 * zlen ws) =
+  Some (if rank1z (flat ws) p <? zlen (all_ones ws)
+        then fst (spec_Select ws (rank1z (flat ws) p)) else -1).
+Proof. exact NextOne_select_of_rank. Qed.
+Print Assumptions C02_NextOne_is_select_of_rank.
+
+(** ... stated over the three library functions as they are called *)
+Theorem C02_NextOne_is_Select32_of_Rank64 : forall ws tr sidx p r b a c, words_ok ws ->
+  IndexSelect32 ws = Some sidx -> 0 <= p < 64 * zlen ws ->
+  Rank64 ws (IndexRank64 ws tr) p = Some (r, b) -> r < zlen (all_ones ws) ->
+  Select32 ws sidx r = Some (a, c) ->
+  NextOne ws p (64 * zlen ws) = Some a.
+Proof. exact NextOne_is_Select32_of_Rank64. Qed.
+Print Assumptions C02_NextOne_is_Select32_of_Rank64.
+
+Theorem C02_NextOne_none_when_rank_total : forall ws tr p r b, words_ok ws ->
+  0 <= p < 64 * zlen ws ->
+  Rank64 ws (IndexRank64 ws tr) p = Some (r, b) -> zlen (all_ones ws) <= r ->
+  NextOne ws p (64 * zlen ws) = Some (-1).
+Proof. exact NextOne_none_iff_rank_total. Qed.
+Print Assumptions C02_NextOne_none_when_rank_total.
+
+(** the second component of a select result is what NextOne finds from just after the first
+    (NextOne's -1 corresponds to select's 64 * len) *)
+Theorem C02_Select32_then_NextOne : forall ws sidx i a b, words_ok ws ->
+  IndexSelect32 ws = Some sidx -> 0 <= i < zlen (all_ones ws) ->
+  Select32 ws sidx i = Some (a, b) -> a + 1 < 64 * zlen ws ->
+  NextOne ws (a + 1) (64 * zlen ws) = Some (if b <? 64 * zlen ws then b else -1).
+Proof. exact Select32_then_NextOne. Qed.
+Print Assumptions C02_Select32_then_NextOne.
+
+Theorem C02_Select32R64_then_NextOne : forall ws sidx ridx i a b, words_ok ws ->
+  IndexSelect32R64 ws = Some (sidx, ridx) -> 0 <= i < zlen (all_ones ws) ->
+  Select32R64 ws sidx ridx i = Some (a, b) -> a + 1 < 64 * zlen ws ->
+  NextOne ws (a + 1) (64 * zlen ws) = Some (if b <? 64 * zlen ws then b else -1).
+Proof. exact Select32R64_then_NextOne. Qed.
+Print Assumptions C02_Select32R64_then_NextOne.
+
+Example C02_NextOne_nonvacuous :
+  0 <= 64 < 64 * zlen c02_ex /\ NextOne c02_ex 64 256 = Some 191 /\
+  Select32 c02_ex [0; 32] 33 = Some (191, 192) /\ 191 + 1 < 64 * zlen c02_ex /\
+  NextOne c02_ex 192 256 = Some 192 /\
+  Select32 c02_ex [0; 32] 34 = Some (192, 256) /\ NextOne c02_ex 193 256 = Some (-1) /\
+  Rank64 c02_ex (IndexRank64 c02_ex true) 193 = Some (35, 0) /\ zlen (all_ones c02_ex) = 35.
+Proof. vm_compute. intuition congruence. Qed.
